@@ -793,7 +793,11 @@ class ConfigParser(object):
 
   def _convert_species_type(self, property_name, v):
     def default(v):
-      return u"{}".format(v)
+      v = u"{}".format(v).strip()
+      if property_name == 'lattice_type' and len(v.split()) != 1:
+        # written into the element line of EAM files: a second word or a continuation line would corrupt it
+        raise ConfigParserException("The value of [Species] property 'lattice_type' must be a single word. Value is = {}".format(v))
+      return v
 
     known_properties = {
       'atomic_mass' : float, 
